@@ -114,9 +114,10 @@ pub fn extend_bangbang(sh: &shell::Shell, line: &mut String) {
         new_line.push(' ');
     }
 
-    *line = new_line.trim_end().to_string();
-    // print full line after extending
+    // a line whose `!!` are all inside single quotes stays as typed
     if replaced {
+        *line = new_line.trim_end().to_string();
+        // print full line after extending
         println!("{}", line);
     }
 }
